@@ -2,7 +2,7 @@
 
 package core
 
-//@ spec func chainsOK(c ref) bool = c != nil && (forall i int, j int :: 0 <= i && i < len(c.CertificateChainList) && 0 <= j && j < len(c.CertificateChainList[i].CertificateChainEntryList) ==> c.CertificateChainList[i].CertificateChainEntryList[j].Certificate != nil && c.CertificateChainList[i].CertificateChainEntryList[j].Certificate.SerialNumber != nil)
+//@ spec func chainsOK(c ref) bool = c != nil && (forall i int, j int :: 0 <= i && i < len(c.CertificateChainList) && 0 <= j && j < len(c.CertificateChainList[i].CertificateChainEntryList) ==> c.CertificateChainList[i].CertificateChainEntryList[j].Certificate != nil && c.CertificateChainList[i].CertificateChainEntryList[j].Certificate.SerialNumber != nil && c.CertificateChainList[i].CertificateChainEntryList[j].RawCertificate != nil)
 
 //@ func CertificateChains.AddCertificateChain
 //@   props C07
@@ -11,13 +11,15 @@ package core
 //@   ensures len(c.CertificateChainList) == old(len(c.CertificateChainList)) + 1
 //@   ensures c.CertificateChainList[old(len(c.CertificateChainList))].CertificateChainEntryList == chain.CertificateChainEntryList
 //@   ensures forall i int :: 0 <= i && i < old(len(c.CertificateChainList)) ==> c.CertificateChainList[i].CertificateChainEntryList == old(c.CertificateChainList[i].CertificateChainEntryList)
+//@   ensures onlyArrayChanged(old(c.CertificateChainList))
 
 //@ func CertificateChain.AddCertificateChainEntry
 //@   props C07
 //@   requires c != nil && entry != nil
 //@   assigns *c, E.core.CertificateChainEntry
 //@   ensures len(c.CertificateChainEntryList) == old(len(c.CertificateChainEntryList)) + 1
-//@   ensures c.CertificateChainEntryList[old(len(c.CertificateChainEntryList))].Certificate == old(entry.Certificate)
+//@   ensures c.CertificateChainEntryList[old(len(c.CertificateChainEntryList))] == old(*entry)
+//@   ensures onlyArrayChanged(old(c.CertificateChainEntryList))
 //@   ensures forall j int :: 0 <= j && j < old(len(c.CertificateChainEntryList)) ==> c.CertificateChainEntryList[j].Certificate == old(c.CertificateChainEntryList[j].Certificate)
 
 //@ func NewCertificateChains
@@ -31,40 +33,47 @@ package core
 //@ func NewCertificateChainsFromEntry
 //@   props C07
 //@   requires chainEntry != nil
-//@   assigns E.core.CertificateChain, E.core.CertificateChainEntry
+//@   assigns fresh:E.core.CertificateChain, fresh:E.core.CertificateChainEntry
 //@   fresh r0
 //@   ensures ret != nil
+//@   ensures old(chainEntry.Certificate != nil && chainEntry.Certificate.SerialNumber != nil && chainEntry.RawCertificate != nil) ==> chainsOK(ret)
 
 //@ func FindCertificateIssuerCandidates
 //@   props C07 C04 C05
 //@   requires extensions != nil && chains != nil && issuer != nil
 //@   requires certs_nonnil: chainsOK(chains)
-//@   assigns E.uint8, X.stream, E.*core.CertificateChainEntry
-//@   ensures err == nil ==> forall k int :: 0 <= k && k < len(ret) ==> ret[k] != nil && ret[k].Certificate != nil
+//@   assigns E.uint8, X.stream, fresh:E.*core.CertificateChainEntry
+//@   ensures err == nil ==> forall k int :: 0 <= k && k < len(ret) ==> ret[k] != nil && ret[k].Certificate != nil && ret[k].RawCertificate != nil
 
 //@ func findCertificateCandidatesFromKeyIdentifier
 //@   props C07 C04
 //@   requires verifiedChains != nil && authorityKeyIdentifier != nil && chainsOK(verifiedChains)
-//@   assigns E.uint8, X.stream, E.*core.CertificateChainEntry
-//@   ensures err == nil ==> forall k int :: 0 <= k && k < len(ret) ==> ret[k] != nil && ret[k].Certificate != nil
-//@   loop 1 invariant forall k int :: 0 <= k && k < len(certificateCandidates) ==> certificateCandidates[k] != nil && certificateCandidates[k].Certificate != nil
-//@   loop 2 invariant forall k int :: 0 <= k && k < len(certificateCandidates) ==> certificateCandidates[k] != nil && certificateCandidates[k].Certificate != nil
+//@   assigns E.uint8, X.stream, fresh:E.*core.CertificateChainEntry
+//@   ensures err == nil ==> forall k int :: 0 <= k && k < len(ret) ==> ret[k] != nil && ret[k].Certificate != nil && ret[k].RawCertificate != nil
+//@   loop 1 invariant fresh(certificateCandidates) || cap(certificateCandidates) == 0
+//@   loop 2 invariant fresh(certificateCandidates) || cap(certificateCandidates) == 0
+//@   loop 1 invariant forall k int :: 0 <= k && k < len(certificateCandidates) ==> certificateCandidates[k] != nil && certificateCandidates[k].Certificate != nil && certificateCandidates[k].RawCertificate != nil
+//@   loop 2 invariant forall k int :: 0 <= k && k < len(certificateCandidates) ==> certificateCandidates[k] != nil && certificateCandidates[k].Certificate != nil && certificateCandidates[k].RawCertificate != nil
 
 //@ func findCertificateBySerialAndIssuer
 //@   props C07 C04
 //@   requires verifiedChains != nil && identifier != nil && identifier.AuthorityCertSerialNumber != nil && chainsOK(verifiedChains)
-//@   assigns E.uint8, X.stream, E.*core.CertificateChainEntry
-//@   ensures err == nil ==> forall k int :: 0 <= k && k < len(ret) ==> ret[k] != nil && ret[k].Certificate != nil
-//@   loop 1 invariant forall k int :: 0 <= k && k < len(certificateCandidates) ==> certificateCandidates[k] != nil && certificateCandidates[k].Certificate != nil
-//@   loop 2 invariant forall k int :: 0 <= k && k < len(certificateCandidates) ==> certificateCandidates[k] != nil && certificateCandidates[k].Certificate != nil
+//@   assigns E.uint8, X.stream, fresh:E.*core.CertificateChainEntry
+//@   ensures err == nil ==> forall k int :: 0 <= k && k < len(ret) ==> ret[k] != nil && ret[k].Certificate != nil && ret[k].RawCertificate != nil
+//@   loop 1 invariant fresh(certificateCandidates) || cap(certificateCandidates) == 0
+//@   loop 2 invariant fresh(certificateCandidates) || cap(certificateCandidates) == 0
+//@   loop 1 invariant forall k int :: 0 <= k && k < len(certificateCandidates) ==> certificateCandidates[k] != nil && certificateCandidates[k].Certificate != nil && certificateCandidates[k].RawCertificate != nil
+//@   loop 2 invariant forall k int :: 0 <= k && k < len(certificateCandidates) ==> certificateCandidates[k] != nil && certificateCandidates[k].Certificate != nil && certificateCandidates[k].RawCertificate != nil
 
 //@ func findCertificateCandidatesByIssuerAndAlgorithm
 //@   props C07 C04
 //@   requires verifiedChains != nil && issuer != nil && chainsOK(verifiedChains)
-//@   assigns E.uint8, X.stream, E.*core.CertificateChainEntry
-//@   ensures err == nil ==> forall k int :: 0 <= k && k < len(ret) ==> ret[k] != nil && ret[k].Certificate != nil
-//@   loop 1 invariant forall k int :: 0 <= k && k < len(certificateCandidates) ==> certificateCandidates[k] != nil && certificateCandidates[k].Certificate != nil
-//@   loop 2 invariant forall k int :: 0 <= k && k < len(certificateCandidates) ==> certificateCandidates[k] != nil && certificateCandidates[k].Certificate != nil
+//@   assigns E.uint8, X.stream, fresh:E.*core.CertificateChainEntry
+//@   ensures err == nil ==> forall k int :: 0 <= k && k < len(ret) ==> ret[k] != nil && ret[k].Certificate != nil && ret[k].RawCertificate != nil
+//@   loop 1 invariant fresh(certificateCandidates) || cap(certificateCandidates) == 0
+//@   loop 2 invariant fresh(certificateCandidates) || cap(certificateCandidates) == 0
+//@   loop 1 invariant forall k int :: 0 <= k && k < len(certificateCandidates) ==> certificateCandidates[k] != nil && certificateCandidates[k].Certificate != nil && certificateCandidates[k].RawCertificate != nil
+//@   loop 2 invariant forall k int :: 0 <= k && k < len(certificateCandidates) ==> certificateCandidates[k] != nil && certificateCandidates[k].Certificate != nil && certificateCandidates[k].RawCertificate != nil
 
 //@ func parseKeyIdentifierFromExtension
 //@   props C07 C04
